@@ -43,7 +43,7 @@ ASSUMPTIONS = [
 
 ENTRY = ["ovf", "vbox", "pvs", "hdd"]
 PROLOGS = ["internal", "internal", "internal-deep", "param", "external-general", "external-param", "ndata", "dtd-only", "subset-no-entity", "none",
-           "internal-empty", "param-empty"]
+           "internal-empty", "param-empty", "pe-ref-first", "pe-ref-first-external"]
 LEADS = [0, 0, 0, 0, 40, 16384, 16400, 70000, 300000]
 CANARY_TEXT = "CANARY-7f3a9c-SECRET-CONTENT"
 _STATE = {"events": [], "active": False, "installed": False, "canary": None, "dir": None}
@@ -182,6 +182,12 @@ def _make_prolog(spec, canary):
         return f'<!DOCTYPE {name} [\n  <!ENTITY n "">\n]>', "n", True
     if kind == "param-empty":
         return f'<!DOCTYPE {name} [\n  <!ENTITY % n "">\n  %n;\n]>', None, True
+    if kind == "pe-ref-first":
+        # a reference to a parameter entity that is declared nowhere, in front of the declarations: a non-validating processor
+        # stops reading declarations there (XML 1.0 section 5.1), so the declarations behind it are never reported to the parser's hooks
+        return f'<!DOCTYPE {name} [\n  %undeclared;\n  <!ENTITY hidden "yyy">\n]>', "hidden", True
+    if kind == "pe-ref-first-external":
+        return f'<!DOCTYPE {name} SYSTEM "{target}" [\n  %undeclared;\n  <!ENTITY hidden SYSTEM "{target}">\n]>', "hidden", True
     if kind == "none":
         return "", None, False
     if kind == "dtd-only":
